@@ -30,6 +30,9 @@ def dec_lwl(x, w, mu, var):
     """x (D,), w (C,), mu/var (C,D) -> list of C Decimals: ln w_c + ln N(x; mu_c, diag var_c)."""
     out = []
     for c in range(len(w)):
+        if float(w[c]) == 0.0:
+            out.append(Dc("-Infinity"))  # a pruned component contributes nothing
+            continue
         acc = CTX.ln(Dc(float(w[c])))
         for d in range(len(x)):
             v = Dc(float(var[c][d]))
@@ -45,13 +48,15 @@ def dec_ll(lwl):
     m = max(lwl)
     s = Dc(0)
     for l in lwl:
+        if l == Dc("-Infinity"):
+            continue
         s = CTX.add(s, CTX.exp(CTX.subtract(l, m)))
     return CTX.add(m, CTX.ln(s))
 
 
 def dec_resp(lwl):
     tot = dec_ll(lwl)
-    return [CTX.exp(CTX.subtract(l, tot)) for l in lwl], tot
+    return [Dc(0) if l == Dc("-Infinity") else CTX.exp(CTX.subtract(l, tot)) for l in lwl], tot
 
 
 # ---------------------------------------------------------------------------------------------- float64 definitions
